@@ -79,6 +79,16 @@ theorem source_jsf_rand (a b c d : UInt64) :
       ((Jsf.rand ⟨a, b, c, d⟩).1, ((Jsf.rand ⟨a, b, c, d⟩).2.a, (Jsf.rand ⟨a, b, c, d⟩).2.b, (Jsf.rand ⟨a, b, c, d⟩).2.c, (Jsf.rand ⟨a, b, c, d⟩).2.d)) :=
   tr_jsfRand a b c d
 
+/-- `repeat.reject` of /repo (translated from the source on every run): it panics with "too many
+    rejections" exactly when the model's loop raises invalid data, and otherwise leaves the counters
+    and the forced-stop flag the model continues with -/
+theorem source_repeat_reject (c rj mn : Nat) (f rej : Bool) (hc : c < 2 ^ 60) (hr : rj < 2 ^ 60) (hm : mn < 2 ^ 62)
+    (cfg : RCfg) (hcfg : cfg.minC = mn) :
+    Translated.repeatReject (Int64.ofNat (c + 1)) f (Int64.ofNat mn) rej (Int64.ofNat rj) =
+      if tooManyRejections cfg ⟨c, rj, f⟩ then none
+      else some (Int64.ofNat c, (f || decide (rj + 1 > c * 2)), Int64.ofNat mn, true, Int64.ofNat (rj + 1)) :=
+  tr_repeatReject c rj mn f rej hc hr hm cfg hcfg
+
 /-- a recording made from the PRNG replays from a buffer (the PRNG never overruns) -/
 theorem words_are_masked (s s' : Src) (n : Nat) (u : UInt64) (h : s.next n = some (u, s')) : mask n u = u :=
   next_masked h
